@@ -26,6 +26,7 @@ VERUS_UNITS = {
     "chunk": ("units_chunk", ["C08"]),
     "rank": ("units_rank", ["C17"]),
     "kern": ("units_kern", ["C19"]),
+    "own": ("units_own", ["C09"]),
 }
 # units in which a lock guard is encoded as a `&mut` borrow of its owner (rule R8)
 R8_UNITS = ("frontend", "proxy", "gpu")
@@ -34,6 +35,14 @@ VERUS_FOR = {}
 for _u, (_m, _ps) in VERUS_UNITS.items():
     for _p in _ps:
         VERUS_FOR.setdefault(_p, []).append(_u)
+
+# units that carry LABELLED clauses of further properties (only those clauses are charged to them; unlabelled failures of the
+# unit stay with its default properties)
+VERUS_ALSO = {"C09": ["chunk"], "C01": ["chunk"], "C14": ["misc"]}
+for _p, _us in VERUS_ALSO.items():
+    for _u in _us:
+        if _u not in VERUS_FOR.setdefault(_p, []):
+            VERUS_FOR[_p].append(_u)
 
 # Kani harnesses that serve further properties besides the one in their name
 KANI_ALSO = {
